@@ -24,6 +24,9 @@ import c06_pool
 import codec_common as cc
 import core
 import extract_c01
+import extract_c06
+import extract_c06_re
+import extract_c06_reg
 import lenient_common as lc
 from core import Infra, hx, unhx
 
@@ -38,6 +41,7 @@ RSS_FACTOR = 160
 # therefore not explained by the declared sizes and is a violation; above that it is information.
 EXPORT_DECLARED_OK = 8 << 20
 CHUNK = 3000
+READ_VOLUME_CONST = 1 << 20
 MAX_HARD = 12                 # hangs / worker deaths after which the search stops (the verdict is a violation anyway)
 
 
@@ -125,7 +129,7 @@ def bytes_of_input(d):
         f = next(p for p in cc.fixtures() if p.name == d["fixture"])
         return G.apply_delta(f.read_bytes(), d["prefix"], d["suffix"], unhx(d["middle"]))
     if "hostile" in d:
-        for nm, b, _ in G.hostile():
+        for nm, b, _ in G.hostile() + G.big_hostile():
             if nm == d["hostile"]:
                 return b
     raise Infra("replay: input has neither file, fixture recipe nor hostile name")
@@ -198,6 +202,24 @@ def violations_of(c, r):
         out.append((f"C06/open/memory/rss-growth/{o['where'] if o['k'] != 'ok' else 'accepted'}",
                     f"peak resident set grew by {grow} KiB while opening {len(c['b'])} bytes (bound {bound} KiB)",
                     {"grow_kb": grow, "bound_kb": bound, "outcome": o}))
+    cnt = om.get("count")
+    if cnt and "bytes" in cnt:
+        vol = cnt["bytes"] + cnt["init_bytes"]
+        # a nesting level of Lr16 reads and copies its block twice (the tagged block, the record's extra data): 4 * depth
+        READ_VOLUME_FACTOR = 4 * (D_LR16 + 8) + 64
+        bound_v = READ_VOLUME_FACTOR * len(c["b"]) + READ_VOLUME_CONST
+        if vol > bound_v:
+            out.append((f"C06/open/read-volume/{cnt.get('culprit') or '?'}",
+                        f"PSD.read of {len(c['b'])} bytes made fp.read return / the reader copy {vol} bytes in {cnt['reads']} reads "
+                        f"(bound {READ_VOLUME_FACTOR} * len + {READ_VOLUME_CONST} = {bound_v}): super-linear re-reading",
+                        {"bytes_returned": cnt["bytes"], "bytes_copied_into_nested_streams": cnt["init_bytes"], "reads": cnt["reads"],
+                         "culprit": cnt.get("culprit"), "bound": bound_v, "t_s": round(om.get("t_count", 0), 2)}))
+    pth = om.get("path")
+    if pth and pth.get("k") == "memory":
+        out.append((f"C06/open-from-path/memory/{pth.get('site', '?')}",
+                    "PSDImage.open(<path>) raised MemoryError under RLIMIT_AS: the declared length is handed to the buffered "
+                    "file object's read(), which reserves it before it reads (io.BytesIO allocates what it returns)",
+                    {"outcome": pth, "same_bytes_through_BytesIO": o}))
     hf = c.get("hdr_invalid")
     if hf and o["k"] == "ok":
         out.append((f"C06/header/{hf}-accepted", f"header with invalid {hf} = {c['hdr_value']} was opened, not rejected",
@@ -267,7 +289,10 @@ def gen_stream(ctx, quick, info):
             yield case(b, "corpus", e.get("note", "")[:80], hostile=e.get("hostile"), force_export=True, force_model=True)
     # ---- hand-made hostile files
     for nm, (b, note) in host.items():
-        yield case(b, "hostile", nm, hostile=nm, force_export=True, force_model=True)
+        yield case(b, "hostile", nm, hostile=nm, force_export=True, force_model=True,
+                   from_path=("length-max" in nm or nm.startswith("channel-length-")))
+    for nm, b, note in G.big_hostile():
+        yield case(b, "hostile-big", nm, hostile=nm, force_export=False, counted=True)
     # ---- synthetic small documents: every truncation offset, every header bit, every skeleton field
     syn = [("syn-v1", G.syn_doc(1)), ("syn-v2", G.syn_doc(2, image_comp=1))]
     if not quick:
@@ -453,6 +478,12 @@ def run(ctx):
     # the header validators' bounds, enum value sets and accepted signatures the model uses are regenerated from the
     # live classes (shared with C01: Generated/Codec.lean), so a change of a validator moves the model with it
     ctx.regenerate(extract_c01.gen_codec)
+    # what the cost theorems assume about the source: allocation sites, the loops / try-excepts of the readers, the two
+    # payload registries, the regular expressions of the engine-data tokenizer (tied by `decide` in Props/C06.lean section 11)
+    ctx.regenerate(extract_c06.gen_alloc_sites)
+    ctx.regenerate(extract_c06.gen_read_loops)
+    ctx.regenerate(extract_c06_reg.gen_open_registry)
+    ctx.regenerate(extract_c06_re.gen_engine_patterns)
     ctx.prove(["PsdVerif.Props.C06"])
     T["prove"] = round(time.time() - t0, 1)
     # does the driver have the cost command of the Lean half?
@@ -465,6 +496,11 @@ def run(ctx):
                            "histograms and the cost sanity comparison are skipped; the bounds themselves are theorems "
                            "of Props/C06.lean")
 
+    probe2 = ctx.driver().batch([("open.cost", 100, "38425053")])
+    global has_open_cost
+    has_open_cost = bool(probe2[0]) and probe2[0][:2] == ["err", "IOError"]
+    if not has_open_cost:
+        ctx.disagree("open.cost on the 4-byte input '8BPS'", {"model": probe2[0][:2], "expected": ["err", "IOError"]})
     pool = c06_pool.Pool(timeout=TIMEOUT, export_timeout=TIMEOUT,
                          env={"C06_WARMUP": hx(G.syn_doc(1))})
     try:
@@ -485,7 +521,81 @@ def run(ctx):
         pool.close()
 
 
+has_open_cost = False
+D_LR16 = 123
+
+
+def compare_open_cost(ctx, c, a, r, fxbytes, OC):
+    """typed PSD.read under the counting stream vs the Lean counting twin `open.cost` (Model/OpenMain.lean)"""
+    om = r.get("open") or {}
+    cnt = om.get("count")
+    if not cnt or "reads" not in cnt:
+        ctx.hist("open_cost_unavailable", r["status"])
+        return
+    try:
+        ticks, alloc = int(a[2]), int(a[3])
+    except (IndexError, ValueError):
+        ctx.disagree("open.cost answer not understood", {"answer": a[:4]})
+        return
+    n = len(c["b"])
+    py_ticks = cnt["reads"] + cnt["inits"]
+    py_alloc = cnt["bytes"] + cnt["init_bytes"]
+    OC["n"] += 1
+    ctx.corr_cases += 1
+    ctx.count(("open.cost", c["op"], c.get("fx"), c["why"]), nontrivial=n >= 26)
+    py_ok = cnt["k"] == "ok"
+    mo_ok = a[0] == "ok"
+    pcls = "ok" if py_ok else cnt.get("err", "?")
+    mcls = "ok" if mo_ok else a[1]
+    rec = "RecursionError" in (pcls, mcls)
+    ctx.hist("open_cost_outcome", f"py={pcls}|model={mcls}" if pcls != mcls else pcls)
+    inp = lambda: input_repr(c, fxbytes)
+    if rec:
+        # the interpreter's recursion limit (descriptor nesting is not limited in the model; the Lr16 depth is D_LR16 +- 1)
+        ctx.hist("open_cost_recursion", f"py={pcls}|model={mcls}")
+    elif py_ok != mo_ok:
+        ctx.disagree("typed PSD.read outcome != model open.cost (one opens, the other raises)",
+                     {"input": inp(), "python": pcls, "python_msg": cnt.get("msg"), "python_where": cnt.get("where"), "model": mcls})
+        return
+    elif py_ok and cnt.get("tell") != int(a[1]):
+        ctx.disagree("typed PSD.read final cursor != model open.cost", {"input": inp(), "python": cnt.get("tell"), "model": a[1]})
+        return
+    elif not py_ok and pcls != mcls:
+        OC["class_diff"] += 1
+        ctx.hist("open_cost_class_diff", f"py={pcls}|model={mcls}|{cnt.get('where')}")
+    # the counters: the model over-approximates the reads (it reads a struct format field by field and ticks once per loop
+    # iteration), and is EXACT on the bytes when the file is accepted
+    if py_ticks > ticks and not rec:
+        ctx.disagree("typed PSD.read made more fp.read calls / nested streams than the model has ticks",
+                     {"input": inp(), "python_reads": cnt["reads"], "python_streams": cnt["inits"], "model_ticks": ticks})
+    if py_ok and mo_ok:
+        OC["ok"] += 1
+        if py_alloc == alloc:
+            OC["ok_exact"] += 1
+        elif py_alloc > alloc:
+            ctx.disagree("typed PSD.read returned / copied more bytes than the model allocates (accepted file)",
+                         {"input": inp(), "python_bytes": py_alloc, "model_alloc": alloc})
+        else:
+            ctx.hist("open_cost_alloc_over_on_accept", bucket(alloc - py_alloc, "B"))
+    elif not rec:
+        # on a failure the model may have read fewer bytes of the failing struct format (it stops at the first missing field)
+        if py_alloc > alloc + 64:
+            ctx.disagree("typed PSD.read returned / copied more bytes than the model allocates (rejected file)",
+                         {"input": inp(), "python_bytes": py_alloc, "model_alloc": alloc, "python": pcls, "model": mcls})
+        ctx.hist("open_cost_alloc_diff_on_reject", "exact" if py_alloc == alloc else ("py>model" if py_alloc > alloc else "py<model"))
+    ctx.hist("open_cost_model_ticks_per_read", bucket(ticks / max(1, py_ticks), "x"))
+    bound = (2105 + 4 * n + 168 * min(D_LR16, n // 12)) * n + 287
+    if ticks + alloc > bound:
+        ctx.disagree("open.cost exceeds the bound of Props/C06.open_steps_bound", {"input": inp(), "ticks": ticks, "alloc": alloc, "bound": bound})
+    if n and (ticks + alloc) / n > OC["max_ratio"][0]:
+        OC["max_ratio"] = (round((ticks + alloc) / n, 1), {"why": c["why"], "fx": c.get("fx") or c.get("hostile"), "len": n, "ticks": ticks, "alloc": alloc,
+                                                       "python_reads": cnt["reads"], "python_bytes": py_alloc})
+
+
 def _run(ctx, pool, hello, has_cost, T):
+    global D_LR16
+    D_LR16 = hello.get("max_lr16_depth") or 123
+    OC = {"n": 0, "ok": 0, "ok_exact": 0, "class_diff": 0, "max_ratio": (0.0, None)}
     quick = ctx.quick
     rng = ctx.rng
     info = {"fxbytes": {}}
@@ -520,10 +630,16 @@ def _run(ctx, pool, hello, has_cost, T):
                     fl |= 2
                 if idx % 20 == 0:
                     fl |= 4
-            c["flags"] = fl | 8
             ln = len(c["b"])
             u = rng.random()
             c["model"] = ln <= MODEL_MAX and (bool(c.get("force_model")) or ln <= 8192 or u < C / ln)
+            # the typed PSD.read under the counting stream (what `open.cost` bounds): every 2nd modelled input, the hand-made ones
+            c["cost"] = has_open_cost and ((c["model"] and (idx % 2 == 0 or c["op"] in ("hostile", "corpus"))) or bool(c.get("counted")))
+            if c["cost"]:
+                fl |= 16
+            if c.get("from_path"):
+                fl |= 32
+            c["flags"] = fl | 8
             sections[c["op"]] = sections.get(c["op"], 0) + 1
         n_cases += len(chunk)
         # ---- the watchdog (also computes the raw-payload outcome for the correspondence)
@@ -547,8 +663,12 @@ def _run(ctx, pool, hello, has_cost, T):
         reqs = [("psd.dec", hx(c["b"])) for c in mcases]
         costs = [c for k, c in enumerate(mcases) if has_cost and (k % 4 == 0 or c["op"] in ("hostile", "corpus"))]
         reqs += [("psd.cost", hx(c["b"])) for c in costs]
+        ocosts = [c for c in mcases if c["cost"]]
+        reqs += [("open.cost", D_LR16, hx(c["b"])) for c in ocosts]
         ans = cc.pbatch(reqs, 14) if reqs else []
         t_model += time.time() - t0
+        for c, a in zip(ocosts, ans[len(mcases) + len(costs):]):
+            compare_open_cost(ctx, c, a, res[c["id"]], fxbytes, OC)
         for c, a in zip(mcases, ans):
             r = res[c["id"]]
             om = r.get("open") or {}
@@ -570,7 +690,7 @@ def _run(ctx, pool, hello, has_cost, T):
             elif len(ctx.samples) < 6 and c["op"] not in ("corpus",) and (n_model % 97 == 1):
                 ctx.sample({"op": c["op"], "fixture": c.get("fx"), "why": c["why"], "len": len(c["b"]),
                             "python": py, "model": mo})
-        for c, a in zip(costs, ans[len(mcases):]):
+        for c, a in zip(costs, ans[len(mcases):len(mcases) + len(costs)]):
             # ok\t<cursor>\t<ticks>\t<alloc> | err\t<Class>\t<ticks>\t<alloc>
             try:
                 ticks, alloc = int(a[2]), int(a[3])
@@ -700,6 +820,13 @@ def _run(ctx, pool, hello, has_cost, T):
         ctx.extra["information_only"] = {k: v[:10] for k, v in infos.items()}
     if has_cost:
         ctx.extra["model_cost_max_ticks_per_byte"] = cost_ratio_max
+    ctx.extra["open_cost_correspondence"] = {
+        "cases": OC["n"], "accepted_by_both": OC["ok"], "accepted_with_model_alloc_exactly_python_bytes": OC["ok_exact"],
+        "rejected_with_different_exception_class": OC["class_diff"], "lr16_depth_before_RecursionError": D_LR16,
+        "max_model_cost_per_byte": OC["max_ratio"],
+        "relation": "reads + nested streams of the real typed PSD.read <= model ticks (the model reads a struct format field by "
+                    "field and ticks per loop iteration); bytes returned by fp.read + copied into nested streams == model alloc on "
+                    "accepted files, <= model alloc + 64 on rejected ones (the model stops at the first missing field of a format)"}
     ctx.extra["phase_wall_s"] = T
     ctx.rule = ("a correspondence case is one malformed input (<= 300 KB) whose PSD.read outcome with raw payloads (exception "
                 "class through core.err_class, or final fp.tell()) is compared with the model's psd.dec; distinct = distinct "
@@ -727,21 +854,38 @@ def _run(ctx, pool, hello, has_cost, T):
                         "SystemExit and a 200 MiB resident-set spike; the battery's reference outcomes are taken by each worker "
                         "right after start-up and only items that behave there - rejected / same digest twice - are used)",
                         "harness/lenient_common.py (structural map)",
+                        "lean/PsdVerif/Model/PayloadCost*.lean, DescriptorCost.lean, EngineDataCost.lean, OpenCost.lean, OpenDispatch.lean "
+                        "(counting twins: proved to erase to the C01 payload models; checked against the real reader by open.cost)",
+                        "harness/extract_c06*.py (AST extraction of allocation sites, reader loops, registries, regex patterns)",
+                        "CPython's re: linear on the engine-data patterns (sufficient condition checked, not proved about the engine)",
                         "Linux RLIMIT_AS / VmHWM accounting"]
     ctx.assumptions = ["the property is observed through io.BytesIO (a declared length larger than the data returns only what is "
                        "there)", "time and memory limits are those of this run: 20 s wall clock, RLIMIT_AS baseline + 1200 MiB"]
     ctx.model_coverage = {
-        "modelled (theorems + correspondence)": "file skeleton reader PSD.read with payloads opaque: header and validators, colour "
-        "mode data, image resources blocks, layer and mask information, layer info, layer records, channel info, mask data, "
-        "blending ranges, names, tagged-block framing, channel image data, global layer mask info, image data",
-        "watchdog only (no model)": "every payload reader (descriptors, effects, adjustments, vector data, patterns, linked layers, "
-        "engine data, image-resource payloads), PSDImage._init (layer tree), and the export paths composite()/topil()/numpy() "
-        "with zlib, PIL, NumPy and the compiled _rle extension",
+        "modelled (theorems + correspondence)": "file skeleton reader PSD.read with payloads opaque (psd.dec): header and validators, "
+        "colour mode data, image resources blocks, layer and mask information, layer info, layer records, channel info, mask data, "
+        "blending ranges, names, tagged-block framing, channel image data, global layer mask info, image data; AND the whole typed "
+        "reader as a counting interpreter (open.cost, Model/OpenCost.lean + OpenDispatch.lean + OpenMain.lean): every class registered "
+        "in tagged_blocks.TYPES (87 keys) and image_resources.TYPES (50 ids) — the PCodec combinators, the hand-written readers of "
+        "units 2-10, the descriptor family, Lr16/Lr32 nesting on a fuel that stands for the recursion limit, the engine-data "
+        "tokenizer/parser: outcome class, final cursor, number of reads (<=) and bytes returned + copied (== on accepted files) "
+        "compared with the real typed PSD.read under a counting io.BytesIO",
+        "watchdog only (no model)": "PSDImage._init (layer tree) and the export paths composite()/topil()/numpy() with zlib, PIL, "
+        "NumPy and the compiled _rle extension; real time and memory of everything",
     }
     ctx.notes += [
-        "PARTIAL with respect to the property: the theorems bound the MODEL's steps / allocations / outcomes for the file "
-        "skeleton; real time, memory and interpreter crashes are runtime behaviour that only the watchdog observes, on the "
-        "inputs of this run.",
+        "PARTIAL with respect to the property: the theorems bound the MODEL's steps / allocations / outcomes (now for the whole "
+        "typed reader: Props/C06.open_steps_bound, ticks + bytes <= (2105 + 4n + 168 min(D, n/12)) n + 287 for every byte string); "
+        "real time, memory and interpreter crashes are runtime behaviour that only the watchdog observes, on the inputs of this run.",
+        "the cost model found two super-linear readers: the engine-data tokenizer copied the rest of the blob per token (repaired, "
+        "repo 606e5d1; hostile files enginedata-tokens-*), and SliceV6.read re-reads the rest of the Slices resource per slice "
+        "(known finding C06/open/read-volume/Slices; Props/C06.slices_not_linear / slices_quadratic_partial).",
+        "TRUSTED for the engine data: CPython's re does O(1) work per byte on the tokenizer's patterns; a decidable sufficient "
+        "condition (star height <= 1, disjoint FIRST sets, the one-versus-two tiling exception) is checked on the regenerated "
+        "patterns (Props/C06.engine_patterns_safe) and rejects the seeded variant of UTF16_END.",
+        "the allocation theorems count what fp.read RETURNS (io.BytesIO); through a buffered file object the declared length is "
+        "reserved first: the hand-made *-length-max files are also opened from a temporary file (known findings "
+        "C06/open-from-path/memory/*; Props/C06.declared_length_is_requested, alloc_sites_tied).",
         "the real parse of malformed bytes never runs in the harness process: PSD.read with raw payloads (for the "
         "correspondence) and PSDImage.open both run inside the guarded worker.",
         "opening never decompresses pixel data (ChannelData / ImageData keep the compressed bytes), so zlib bombs and "
